@@ -1,10 +1,11 @@
 (* C06 - a failed read or bad file anywhere in the closure fails the compile cleanly. Statements only.
    Model: Imports/Faults.v (collectSpecs with its error paths and the errgroup join, flattenSpecs, the two
    stages of parseSpecs) under every interleaving of the goroutines. *)
-From Coq Require Import List NArith Arith Bool ZArith.
+From Coq Require Import String List NArith Arith Bool ZArith.
 Import ListNotations.
 Require Import Verif.Imports.Rules Verif.Imports.Collect Verif.Imports.Faults Verif.Imports.FaultsProps Verif.Imports.FaultsProgress
-               Verif.Imports.CurrentFaults Verif.Gen.ImportRules Verif.Gen.Guards Verif.Total.Pipeline.
+               Verif.Imports.CurrentFaults Verif.Gen.ImportRules Verif.Gen.Guards Verif.Total.Pipeline
+               Verif.Imports.ForeignTypes Verif.Imports.Foreign Verif.Imports.ForeignProps Verif.Imports.ForeignCurrent Verif.Gen.FaultArms.
 
 (* the source still has the shape the model was transliterated from *)
 Theorem C06_rules_current : current_rules = expected_rules.
@@ -65,3 +66,112 @@ Theorem C06_no_deadlock : forall g fl maxd root univ s,
   reachable_cur g fl maxd root s -> ftasks s <> [] -> exists t, In t (ftasks s) /\ runnable t = true.
 Proof. exact no_deadlock_current. Qed.
 Print Assumptions C06_no_deadlock.
+
+(* ================= deepen round 3: every input kind an import accepts (Imports/Foreign.v) ================= *)
+
+(* the dispatch code still has the text the model was transliterated from: fromPBContents, GuessFileType,
+   detectFileType, importForeign, the stage-1 goroutine of parseSpecs with the test of g.Wait(), the compiled-model arm of
+   stage 2 (an arm whose error is dropped, shadowed or re-worded changes the text) *)
+Theorem C06_foreign_shapes_current :
+  shape_from_pb = expected_shape_from_pb /\ shape_guess = expected_shape_guess /\ shape_detect = expected_shape_detect /\
+  shape_import_foreign = expected_shape_import_foreign /\ shape_stage1 = expected_shape_stage1 /\
+  shape_stage1_wait = expected_shape_stage1_wait /\ shape_stage2_pb = expected_shape_stage2_pb.
+Proof. exact foreign_shapes_current. Qed.
+Print Assumptions C06_foreign_shapes_current.
+
+(* the suffix / format tables were read completely, and the arms of importForeign name formats that exist *)
+Theorem C06_foreign_tables_current :
+  tables_wf current_tables = true /\
+  map (var_name current_tables) ["SYSL"; "SyslPB"; "OpenAPI3"; "OpenAPI2"; "Protobuf"]%string =
+    ["sysl"; "sysl.pb"; "openapi3"; "swagger"; "protobuf"]%string.
+Proof. exact foreign_tables_current. Qed.
+Print Assumptions C06_foreign_tables_current.
+
+(* GuessFileType, any format list: two formats that both take the extension and both recognise the content are
+   never resolved to one of them; a detected format is in the list, takes the extension, and is the only one to do so
+   or the only one whose signature matches *)
+Theorem C06_guess_ambiguous : forall valid path content yaml c f1 f2 a b,
+  valid = (a ++ f1 :: b)%list -> In f2 (a ++ b)%list ->
+  ext_matches (path_ext path) f1 = true -> ext_matches (path_ext path) f2 = true ->
+  eff_content path content yaml = Some c -> sig_ok (fsig f1) c = true -> sig_ok (fsig f2) c = true ->
+  exists names, guess valid path content yaml = GAmbiguous names /\ In (fname f1) names /\ In (fname f2) names.
+Proof. exact guess_ambiguous_named. Qed.
+Print Assumptions C06_guess_ambiguous.
+
+Theorem C06_guess_ok_sound : forall valid path content yaml f,
+  guess valid path content yaml = GOk f ->
+  In f valid /\ ext_matches (path_ext path) f = true /\
+  (ext_formats valid path = [f] \/
+   exists c, eff_content path content yaml = Some c /\ sig_formats valid path c = [f] /\ sig_ok (fsig f) c = true).
+Proof. exact guess_ok_sound. Qed.
+Print Assumptions C06_guess_ok_sound.
+
+(* no bad file slips through the dispatch, for any tables: a file that is bad for the parse stage (compiled model that
+   does not decode, extension no format takes, no / two signatures, broken JSON, undecodable or invalid payload) and
+   is readable with parsable import lines gets a parse-stage fault class *)
+Theorem C06_bad_file_has_fault : forall T d,
+  bad_parse T d -> ~ bad_collect d -> exists k, file_fault T d = Some k /\ parse_kind k = true.
+Proof. exact bad_parse_fault. Qed.
+Print Assumptions C06_bad_file_has_fault.
+
+(* fault_fails_clean EXTENDED: the fault classes are computed from the file descriptions by the dispatch of the current
+   source; every interleaving; a bad file that was read / processed => Error naming a faulty file, status 1 or 2; a
+   module only if no file read is unreadable and no processed file is bad *)
+Theorem C06_foreign_fails_clean : forall g descs maxd root s choice,
+  let fl := faults_from current_tables descs in
+  reachable_cur g fl maxd root s -> ftasks s = [] ->
+  let o := foutcome current_rules fl root choice s in
+  o <> Stuck /\
+  ((exists f, In f (freads s) /\ bad_collect (descs f)) ->
+     exists e f', o = Error e /\ (exit_code e = 1 \/ exit_code e = 2)%N /\
+                  names e f' = true /\ In f' (freads s) /\ bad_collect (descs f')) /\
+  (forall l, froot s = Some None -> flatten current_rules (2 + length (fcl s)) (fcl s) [] root = Some l ->
+     (exists f, In f l /\ bad_parse current_tables (descs f) /\ ~ bad_collect (descs f)) ->
+     exists e f', o = Error e /\ In f' l /\ names e f' = true /\ fl f' <> None /\
+                  exit_code e = parse_status fl f' /\ (exit_code e = 1 \/ exit_code e = 2)%N) /\
+  (forall l, o = Model l ->
+     (forall f, In f (freads s) -> ~ bad_collect (descs f)) /\
+     (forall f, In f l -> ~ bad_collect (descs f) -> ~ bad_parse current_tables (descs f))).
+Proof. exact foreign_fails_clean_current. Qed.
+Print Assumptions C06_foreign_fails_clean.
+
+(* what the current tables accept: an extension outside .yaml .json .yml .sysl .proto (and no compiled-model suffix)
+   never compiles; two signatures in a .yaml / .yml / .json are ambiguous; none is undetectable; a compiled model that does
+   not decode is a decoding fault *)
+Theorem C06_current_unaccepted_ext_fails : forall d,
+  ~ bad_collect d -> pb_dispatch pb_cases (d_path d) = None -> smem (path_ext (d_path d)) accepted_exts = false ->
+  file_fault current_tables d = Some ForeignDetect \/ file_fault current_tables d = Some ForeignJson.
+Proof. exact current_unaccepted_ext_fails. Qed.
+Print Assumptions C06_current_unaccepted_ext_fails.
+
+Theorem C06_current_two_signatures_fail : forall d c,
+  ~ bad_collect d -> pb_dispatch pb_cases (d_path d) = None -> smem (path_ext (d_path d)) ambiguous_exts = true ->
+  d_eff d = Some c -> sig_ok SigOpenapi c = true -> sig_ok SigSwagger c = true ->
+  file_fault current_tables d = Some ForeignAmbiguous.
+Proof. exact current_two_signatures_fail. Qed.
+Print Assumptions C06_current_two_signatures_fail.
+
+Theorem C06_current_no_signature_fails : forall d c,
+  ~ bad_collect d -> pb_dispatch pb_cases (d_path d) = None -> smem (path_ext (d_path d)) ambiguous_exts = true ->
+  d_eff d = Some c -> sig_ok SigOpenapi c = false -> sig_ok SigSwagger c = false ->
+  file_fault current_tables d = Some ForeignDetect.
+Proof. exact current_no_signature_fails. Qed.
+Print Assumptions C06_current_no_signature_fails.
+
+Theorem C06_current_pb_undecodable_fails : forall d dec,
+  ~ bad_collect d -> pb_dispatch pb_cases (d_path d) = Some dec -> d_pay d = PayUndecodable ->
+  file_fault current_tables d = Some PbDecode.
+Proof. exact current_pb_undecodable_fails. Qed.
+Print Assumptions C06_current_pb_undecodable_fails.
+
+(* non-vacuity (vm_compute over concrete inputs - tests, not theorems): the hypotheses above are met by concrete files;
+   closures with such files fail as stated *)
+Theorem C06_foreign_examples :
+  (let fl := faults_from current_tables descs_a in
+   let s := frun expected_rules g_foreign fl 0 0%N (repeat 0 20) in
+   ftasks s = [] /\ foutcome expected_rules fl 0%N 0 s = Error (EAmbiguous 1%N)) /\
+  (let fl := faults_from current_tables descs_b in
+   let s := frun expected_rules g_foreign fl 0 0%N (repeat 0 20) in
+   ftasks s = [] /\ foutcome expected_rules fl 0%N 0 s = Error (EPbDecode 2%N) /\ exit_code (EPbDecode 2%N) = 1%N).
+Proof. exact foreign_runs. Qed.
+Print Assumptions C06_foreign_examples.
